@@ -169,8 +169,14 @@ def main():
         n_viol += 1
         if n_viol > 20:
             continue   # further failing cases are counted, not written out
-        path = C.write_replay(prop, c, ma, ia, problems)
-        print(f"VIOLATION property={prop} replay={path}")
+        # only the model's and the code's *internal* bookkeeping differ on this input (arena layout, free-list order,
+        # collection counters) and the property-level oracle of the case is satisfied: the tie is broken, the property is
+        # not shown to fail on this input
+        tie_only = all(kind == "model-vs-impl-internal" for kind, _ in problems)
+        path = C.write_replay(prop, c, ma, ia, problems,
+                              note="correspondence model-vs-implementation (internal state) no longer checks on this input; "
+                                   "the property-level oracle found no failing input" if tie_only else "")
+        print(f"VIOLATION property={prop} replay={path}" + (" no-failing-input-found" if tie_only else ""))
         for kind, text in problems[:3]:
             print(f"  [{kind}] {text[:400]}")
     for k in known:
